@@ -131,6 +131,76 @@ def leaf_key(ctx, F):
     return le, as_rf(v)
 
 
+def same_places(x, named):
+    """Rewrite atoms of x whose printed form equals that of one of the `named` forms onto it (a place reached through a
+    projection and the same place named directly are one quantity)."""
+    want = {repr(n): n for n in named}
+    mp = {}
+    for a in I.atoms_deep(x).values():
+        if repr(a) in want:
+            mp[a] = want[repr(a)]
+    return as_rf(I.subst(x, mp)) if mp else x
+
+
+def semantic_entry_keys(ctx, F, cl, env_of=None):
+    """The heap-entry closure with every crate helper inlined: (ok, text) for the leaf key and for the parent key."""
+    ip = I.Interp(F)
+    ip.unroll_limit = 8
+    q, s = qs(ip)
+    env = {}
+    for i, u in enumerate(cl.get('upvars') or []):
+        env[i] = q if 'query' in u['name'] else s
+    gs = gen_sym()
+    child = I.Sym(nf.sym_atom('child'), 'rstar::RTreeNode<voronoi::generator::Generator>')
+    v, _ = ip.call_body(cl, [ip.ref_to(I.St('closure:' + cl['path'], None, env), mut=True), ip.ref_to(child)])
+    ctx.evaluations += ip.evaluations
+    if isinstance(v, I.Ite) or (isinstance(v, I.St) and v.variant in ('Some', 'None')):
+        kept = [leaf.fields[0] for conds, leaf in cases(v) if isinstance(leaf, I.St) and leaf.variant == 'Some']
+        if len(kept) != 1:
+            raise AnalysisIncomplete('heap entry closure yields %d different entries' % len(kept))
+        v = kept[0]
+    dist = I.get_field(v, 'distance')
+
+    def classify(leaf):
+        d = dtab.is_discr_eq(leaf)
+        if d is not None and repr(d[0]) == 'child':
+            return ('LEAF', (d[1] == 0) == d[2])
+        return None
+    tab = dtab.Table(['LEAF'], classify).tabulate(dist)
+    out = []
+    # leaf: |q + s - g|^2 with g the location of child.Leaf.0
+    lv = tab[(True,)]
+    gx = [RF.sym('child.Leaf.0.loc.' + c) for c in 'xyz']
+    want = RF.const(0)
+    for c in range(3):
+        want = want + (Q[c] + S[c] - gx[c]) ** 2
+    try:
+        got = same_places(as_rf(lv), gx)
+        out.append((got == want, 'key - |q+s-g|^2 = %s' % repr(got - want)[:130]))
+    except TypeError:
+        raise AnalysisIncomplete('leaf entry key is not a rational form: %s' % repr(lv)[:100])
+    pv = tab[(False,)]
+    bb = I.Sym(nf.app_atom('call:rstar::ParentNode::envelope', I.Sym(nf.sym_atom('child.Parent.0'), 'rstar::ParentNode<Generator>')), 'rstar::AABB<[f64; 3]>')
+    lo = I.Sym(nf.app_atom('call:rstar::AABB::lower', I.frozen(bb)), '[f64; 3]')
+    hi = I.Sym(nf.app_atom('call:rstar::AABB::upper', I.frozen(bb)), '[f64; 3]')
+    want = RF.const(0)
+    lohi = []
+    for c in range(3):
+        l = as_rf(I.get_index(lo, RF.const(c), 'f64'))
+        h = as_rf(I.get_index(hi, RF.const(c), 'f64'))
+        lohi += [l, h]
+        t = Q[c] + S[c]
+        want = want + (nf.fn_min(nf.fn_max(t, l), h) - t) ** 2
+    try:
+        got = same_places(as_rf(pv), lohi)
+    except Exception:
+        raise AnalysisIncomplete('parent entry key is not a rational form: %s' % repr(pv)[:100])
+    if got != want and any(a.kind == 'app' and str(a.name).startswith('call:') and not str(a.name).endswith(('AABB::lower', 'AABB::upper')) for a in I.atoms_deep(got).values()):
+        raise AnalysisIncomplete('parent entry key goes through a library routine this analysis has no model of: %s' % repr(got)[:160])
+    out.append((got == want, 'key - bound = %s' % repr(got - want)[:130]))
+    return out
+
+
 def r2(ctx, F, rule, sfx):
     le, key = leaf_key(ctx, F)
     g = [RF.sym('g.' + c) for c in 'xyz']
@@ -185,6 +255,11 @@ def r2(ctx, F, rule, sfx):
     pk = repr(tab[(False,)])
     okl = lk == 'call:<voronoi::generator::Generator as rtree_nn::WrappingPointDistance>::wrapping_distance_2(child.Leaf.0, %s, %s)' % (qa, sa)
     okp = pk == 'call:<rstar::AABB<[f64; 3]> as rtree_nn::WrappingEnvelope>::wrapping_distance_2(call:rstar::ParentNode::envelope(child.Parent.0), %s, %s)' % (qa, sa)
+    if not (okl and okp):
+        # not the two calls themselves: compare the keys as values (helpers inlined) with what those calls return (R2 leaf-key, R3 envelope-bound-shape)
+        sl, sp = semantic_entry_keys(ctx, F, cl, env_of=lambda ip2: None)
+        okl, lk = (okl, lk) if okl else sl
+        okp, pk = (okp, pk) if okp else sp
     ctx.check(rule, 'leaf-entry-key' + sfx, okl, lk[-150:], 'leaf.wrapping_distance_2(query_point, shift)', w, key_extra='leaf-entry')
     ctx.check(rule, 'parent-entry-key' + sfx, okp, pk[-150:], 'parent.envelope().wrapping_distance_2(query_point, shift)', w, key_extra='parent-entry')
     # extend_heap pushes one entry per child
